@@ -1,5 +1,6 @@
 import OpdaProofs.Audit
 import OpdaProofs.TableSpec
+import OpdaProofs.TableMoments
 import OpdaGen.CertAll
 /-!
 # C19 — the shipped approximation table delivers the accuracy it records
@@ -9,7 +10,7 @@ exact rational it denotes), and so are the certificates in `OpdaGen/Cert/`; the 
 re-checked against what the file says *now*.  Exponent = `row.1 / 2`.
 -/
 namespace Opda.Props.C19
-open Opda.Table Opda.Gen Opda.PolyCheck
+open Opda.Table Opda.Gen Opda.PolyCheck Opda.Noisy
 
 /-- structure: in every entry the knots increase strictly from exactly 0 to exactly 1 with one coefficient vector
 per piece, and in every row `min_scale` decreases strictly and ends at exactly 0. -/
@@ -23,6 +24,17 @@ theorem table_accuracy (row : Nat × List EntryQ) (hrow : row ∈ tableQ) (e : E
       (lo : ℝ) ≤ x ∧ x ≤ (hi : ℝ) ∧
       |evalQ cs x - x ^ ((row.1 : ℝ) / 2)| ≤ ((slack * e.maxError : ℚ) : ℝ) :=
   accuracy_of_certs tableQ Opda.Gen.Cert.struct_ok Opda.Gen.Cert.table_bound row hrow e he x hx0 hx1
+
+/-- **partial moments**: for every exponent, every entry, **every location `μ` and every scale `σ > 0`** (in particular
+every scale that selects the entry), the partial normal moment obtained from the entry's pieces, `Σ_pieces ∫ p_i dN(μ,σ²)`,
+is within `1.02 · max_error` of `∫₀¹ x^k dN(μ,σ²)` — in exact arithmetic.  (That the code's piecewise recursion returns
+exactly `Σ_pieces ∫ p_i dN` is `Opda.Props.C06.frac_moment_model`; the floating-point evaluation is compared with
+40-digit quadrature by the correspondence check.) -/
+theorem table_partial_moments (row : Nat × List EntryQ) (hrow : row ∈ tableQ) (e : EntryQ) (he : e ∈ row.2)
+    (μ σ : ℝ) (hσ : 0 < σ) :
+    |(∫ x in (0:ℝ)..1, x ^ ((row.1 : ℝ) / 2) * dens μ σ x) - piecesSum μ σ (piecesOf e.knots e.coeffs)|
+      ≤ ((slack * e.maxError : ℚ) : ℝ) :=
+  moments_of_certs tableQ Opda.Gen.Cert.struct_ok Opda.Gen.Cert.table_bound row hrow e he μ σ hσ
 
 /-- the same bound for every piece on its *whole* knot interval (index form, one certificate per piece). -/
 theorem piece_accuracy : ∀ t ∈ allPieces tableQ, PieceBound tableQ t.1 t.2.1 t.2.2 := Opda.Gen.Cert.table_bound
